@@ -1155,6 +1155,19 @@ func (e *Engine) callRTypeMethod(m *rtypeMethod, args []Value) Value {
 		return types.Comparable(t)
 	case "NumField":
 		return int64(t.Underlying().(*types.Struct).NumFields())
+	case "Field":
+		st := t.Underlying().(*types.Struct)
+		i := int(args[0].(int64))
+		if i < 0 || i >= st.NumFields() {
+			e.rtPanic("reflect: Field index out of bounds")
+		}
+		f := st.Field(i)
+		pkgPath := ""
+		if !f.Exported() && f.Pkg() != nil {
+			pkgPath = f.Pkg().Path()
+		}
+		// reflect.StructField{Name, PkgPath, Type, Tag, Offset, Index, Anonymous}
+		return Struct{f.Name(), pkgPath, e.makeRType(f.Type()), st.Tag(i), uint64(0), []Value{int64(i)}, f.Embedded()}
 	case "Implements":
 		u := args[0].(Iface).V.(RType).T
 		return types.Implements(t, u.Underlying().(*types.Interface))
